@@ -9,6 +9,10 @@ minima = mirrored maxima — on series with constant and non-constant time step,
 database entry points (`TsDB.stats`, `TsDB.stats_dataframe`) on SEVERAL series queried in turn for both variants; the same chain through the fitted-distribution entry points (`Weibull.fit`, `Weibull.fromsignal`,
 `TimeSeries.fit_weibull`) on samples with and without exact ties.
 
+Histories on ONE Weibull object (loc / scale / shape re-assigned between calls of gumbel_parameters with the same or a new n), every
+numeric option in several spellings (n and statsdur as float / int / numpy scalar), and the qats.app.funcs wrapper called with the
+flag by keyword, positionally, all by keyword and omitted.
+
 Every generated case is a self-contained JSON dict (`kind` = w2g / fit / summary) that `replay()` re-evaluates.
 """
 import math
@@ -22,7 +26,10 @@ from .c05 import close
 
 USES_TRANSLATOR = True
 ANCHOR_PREFIX = ("w2g_", "wfw_", "wb_invcdf", "wb_pdf")
-RULE = ("seeded Weibull parameters (loc in [-20,20], scale log-uniform, shape in [0.6,6]) x n in [2, 1e6]; fitted distributions on "
+RULE = ("seeded Weibull parameters (loc in [-20,20], scale log-uniform, shape in [0.6,6]) x n in [2, 1e6] spelled float / int / "
+        "numpy scalar x a history of 1-3 re-assignments of loc / scale / shape on the same Weibull object with the same or a new "
+        "n asked again (fitted objects too); statsdur spelled float / int / numpy int / numpy float; app.funcs.calculate_stats "
+        "called with the flag by keyword / positionally / all by keyword / omitted on a two-series container; fitted distributions on "
         "seeded samples (continuous / one decimal / integer-valued = exact ties; ndarray or list; drawn / ascending / descending) "
         "x pwm / msm; seeded multi-tone + noise signals (600-3000 samples, >= 2 global maxima, quantised to 1/1024, 1/8 or 1/2 = "
         "tied maxima; time step constant / two rates / seeded unequal steps / a gap) x affine maps with a = 2^k, b integer x windows / low-pass filter / resampling to a new step or time array (and combinations) x maxima / minima x durations x 2-4 "
@@ -72,6 +79,20 @@ def make_signal(sig_seed, n, step=1. / 1024, level=0.0, tmode="uniform", tseed=N
 
 def pkey(q):
     return "p_%.2f" % (100 * q)
+
+
+# number spellings of a numeric option: the same number as Python float / Python int / numpy scalar. ("int" spellings only for
+# integer-valued numbers; float32 only where the value is exactly representable and the option enters float64 arithmetic)
+SPELL = {"float": float, "int": lambda v: int(round(v)), "np.float64": np.float64, "np.int64": lambda v: np.int64(round(v)),
+         "np.int32": lambda v: np.int32(round(v)), "np.float32": np.float32}
+SD_TYPES = ("float", "float", "int", "int", "np.float64", "np.int64", "np.int32", "np.float32")
+
+
+def spell(v, typ):
+    v = float(v)
+    if typ in ("int", "np.int64", "np.int32") and v != round(v):
+        typ = "float"
+    return SPELL[typ or "float"](v)
 
 
 def fl(v):
@@ -128,6 +149,25 @@ def fit_clauses(inp):
     if not (allclose(g_exp, g_got, 1e-12) and allclose(g_def, g_got_def, 1e-12) and allclose(g_def, g_got_def0, 1e-12)):
         fails.append(("the three entry points give identical Gumbel parameters (fitted distribution: explicit n honoured, default "
                       "n = sample size)", fl(g_exp + g_def), fl(g_got + g_got_def + g_got_def0)))
+    # history on the SAME fitted object: its public parameters are re-assigned (peaks mapped by y = a*x + b, a > 0, and / or a
+    # new shape) and the Gumbel parameters asked again for the same n and the default n
+    for k, st in enumerate(inp.get("history") or []):
+        try:
+            cur = [float(v) for v in wf.params]
+            new = [st["a"] * cur[0] + st["b"], st["a"] * cur[1], cur[2] * st.get("shape_factor", 1.0)]
+            wf.loc, wf.scale, wf.shape = new
+            e_n, e_d = wb.weibull2gumbel(*new, nn), wb.weibull2gumbel(*new, m)
+            if not all(np.isfinite(fl(e_n + e_d))):
+                break
+            g_n, g_d = wf.gumbel_parameters(n=spell(nn, st.get("ntype"))), wf.gumbel_parameters()
+        except Exception as e:
+            fails.append(("Weibull.gumbel_parameters on a re-parameterised fitted distribution (must not raise)", "parameters", repr(e)))
+            break
+        if not (allclose(e_n, g_n, 1e-12) and allclose(e_d, g_d, 1e-12)):
+            fails.append(("identically through every entry point: after the parameters of the same (fitted) Weibull object are "
+                          "re-assigned, gumbel_parameters (explicit n and default n = sample size) gives the Gumbel parameters of the "
+                          "distribution the object describes NOW (history step %d: loc, scale, shape = %r)" % (k + 1, new),
+                          fl(e_n + e_d), fl(g_n + g_d)))
     return fails
 
 
@@ -173,7 +213,7 @@ def db_clauses(inp, t, x, kw, quant, qlist, dist=None):
     from qats import TimeSeries, TsDB
     fails = []
     rng = random.Random(inp["sig_seed"] * 31 + 5)
-    statsdur, ismin = inp["statsdur"], inp["is_minima"]
+    statsdur, ismin = spell(inp["statsdur"], inp.get("sdtype")), inp["is_minima"]
     xs = {"s": x, "s_affine": inp["a"] * x + inp["b"], "s_neg": -x,
           "other": make_signal(inp["sig_seed"] + 1, inp["n"], inp.get("step", 1. / 1024), inp.get("level", 0.0) + 1.0,
                                inp.get("tmode", "uniform"), tseed=inp["sig_seed"])[1]}
@@ -229,6 +269,71 @@ def db_clauses(inp, t, x, kw, quant, qlist, dist=None):
     return fails
 
 
+GUI_FIELDS = STAT_FIELDS + ("p_37.00", "p_57.00", "p_90.00")
+
+
+def gui_clauses(ts, tsneg, twin, fargs, ismin, dist=None):
+    """failing clauses of the application's wrappers qats.app.funcs.calculate_stats(container, twin, fargs, minima) on a
+    container of two series (a signal and its negation), called in every convention the signature documents — flag by keyword,
+    flag as fourth positional argument, everything by keyword, flag omitted (= maxima): each call is the entry point
+    TimeSeries.stats with the GUI's duration (3 h) and quantiles for the requested variant, and the minima variant is the mirror
+    image of the maxima variant of the negated series"""
+    from qats.app.funcs import calculate_stats
+    fails = []
+    cont = {"s": ts, "s_neg": tsneg}
+    refs = {}
+    for flag in (ismin, not ismin):
+        refs[flag] = {nm: o.stats(twin=twin, filterargs=fargs, statsdur=10800., quantiles=(0.37, 0.57, 0.9), is_minima=flag,
+                                  include_sample=True) for nm, o in cont.items()}
+    calls = [("fourth argument positional", ismin, lambda: calculate_stats(cont, twin, fargs, ismin)),
+             ("fourth argument positional", not ismin, lambda: calculate_stats(cont, twin, fargs, not ismin)),
+             ("all arguments by keyword", not ismin, lambda: calculate_stats(container=cont, twin=twin, fargs=fargs, minima=not ismin)),
+             ("flag omitted", False, lambda: calculate_stats(cont, twin, fargs))]
+    got = {}
+    for how, flag, call in calls:
+        if dist:
+            dist("gui:calculate_stats:%s" % how)
+        try:
+            g = call()
+            bad = {}
+            for nm in cont:
+                r = refs[flag][nm]
+                b = [f for f in GUI_FIELDS if not (close(num(g[nm][f]), num(r[f]), 1e-12) or (np.isnan(num(g[nm][f])) and np.isnan(num(r[f]))))]
+                if bool(g[nm]["is_minima"]) != bool(flag):
+                    b.append("is_minima")
+                if np.size(g[nm]["sample"]) != np.size(r["sample"]):
+                    b.append("sample")
+                if b:
+                    bad[nm] = b
+            got[(how, flag)] = g
+        except Exception as e:
+            fails.append(("app.funcs.calculate_stats(container, twin, fargs, minima) is an entry point of the chain in every calling "
+                          "convention (must not raise)", dict(call=how, minima=bool(flag)), "summaries", repr(e)))
+            continue
+        if bad:
+            def val(d, f):
+                return bool(d["is_minima"]) if f == "is_minima" else int(np.size(d["sample"])) if f == "sample" else num(d[f])
+            fails.append(("app.funcs.calculate_stats(container, twin, fargs, minima) — %s — is TimeSeries.stats of every series "
+                          "with the GUI's duration and quantiles for the requested variant (maxima / minima)" % how,
+                          dict(call=how, minima=bool(flag)),
+                          {nm: {f: val(refs[flag][nm], f) for f in b} for nm, b in bad.items()},
+                          {nm: {f: val(g[nm], f) for f in b} for nm, b in bad.items()}))
+    gmin, gmax = got.get(("fourth argument positional", True)), got.get(("fourth argument positional", False))
+    if fargs is None and gmin is not None and gmax is not None:
+        for nm, mirror in (("s", "s_neg"), ("s_neg", "s")):
+            a, m = gmin[nm], gmax[mirror]
+            if np.size(a["sample"]) < 2 or not all(np.isfinite(num(a[f])) for f in ("gloc", "gscale", "p_90.00")):
+                continue
+            same = all(close(num(a[f]), num(m[f]), 1e-10) for f in ("wloc", "wscale", "wshape", "gloc", "gscale"))
+            neg = all(close(num(a[f]), -num(m[f]), 1e-10) for f in ("p_37.00", "p_57.00", "p_90.00"))
+            if not (same and neg):
+                fl_ = ("wloc", "wscale", "wshape", "gloc", "gscale", "p_37.00", "p_57.00", "p_90.00")
+                fails.append(("app.funcs.calculate_stats(.., True): the minima variant is the mirror image of the maxima variant "
+                              "(.., False) of the negated signal", dict(series=nm),
+                              [num(m[f]) for f in fl_[:5]] + [-num(m[f]) for f in fl_[5:]], [num(a[f]) for f in fl_]))
+    return fails
+
+
 def summary_clauses(inp, dist=None):
     """failing clauses [(oracle, extra_input, expected, observed)] of the statistics summary for one self-contained case"""
     from qats import TimeSeries, TsDB
@@ -240,7 +345,8 @@ def summary_clauses(inp, dist=None):
     t, x = make_signal(inp["sig_seed"], inp["n"], inp.get("step", 1. / 1024), inp.get("level", 0.0), tmode)
     n = inp["n"]
     kw = summary_kwargs(inp)
-    statsdur, ismin = inp["statsdur"], inp["is_minima"]
+    sdv, ismin = float(inp["statsdur"]), inp["is_minima"]
+    statsdur = spell(sdv, inp.get("sdtype"))            # the duration as float / int / numpy scalar: the same number
     qlist = [float(v) for v in inp["quantiles"]]
     quant = summary_quantiles(inp)
     sign = -1.0 if ismin else 1.0
@@ -248,7 +354,7 @@ def summary_clauses(inp, dist=None):
     try:
         if inp.get("prior"):
             # history: a different query on the same object first
-            ts.stats(statsdur=3600. if statsdur != 3600. else 1000., quantiles=(0.5, 0.1), is_minima=not ismin,
+            ts.stats(statsdur=3600. if sdv != 3600. else 1000., quantiles=(0.5, 0.1), is_minima=not ismin,
                      twin=(float(t[n // 4]), float(t[-1])))
         s = ts.stats(statsdur=statsdur, quantiles=quant, is_minima=ismin, include_sample=True, **kw)
         tt, xx = ts.get(**kw)
@@ -277,13 +383,14 @@ def summary_clauses(inp, dist=None):
     if dist:
         dist("stats:%s:%s:%s:%s:%s" % ("min" if ismin else "max", tmode, proc, "tied-peaks" if ties else "distinct-peaks",
                                        "q-ascending" if qlist == sorted(qlist) else "q-unordered"))
+        dist("stats:statsdur-as-%s" % type(statsdur).__name__)
     missing = [pkey(q) for q in qlist if pkey(q) not in s]
     if missing:
         return [("the summary has one estimate p_XX per requested quantile", {}, [pkey(q) for q in qlist], missing)]
     pv = [float(s[pkey(q)]) for q in qlist]
     dur = float(tt[-1] - tt[0])
     wpar = fl(s[k] for k in ("wloc", "wscale", "wshape"))
-    nn = round(statsdur / (tt[-1] - tt[0]) * msize)
+    nn = round(sdv / (tt[-1] - tt[0]) * msize)
     if not any(np.isnan(pv)):
         # (a quantile at probability 0 is the lower end of the support: -inf for maxima, +inf for the mirrored minima)
         byq = sorted(zip(qlist, pv))
@@ -296,7 +403,7 @@ def summary_clauses(inp, dist=None):
         exp = [sign * float(v) for v in Gumbel(gl, gs).invcdf(p=np.array(qlist))]
         if not (close(gl, s["gloc"], 1e-12) and close(gs, s["gscale"], 1e-12) and all(close(a, b, 1e-12) for a, b in zip(exp, pv))):
             fails.append(("quantiles are those of the Gumbel derived from the reported Weibull parameters and n = "
-                          "round(statsdur/duration*#maxima): p_XX is its XX % quantile", {},
+                          "round(statsdur/duration*#maxima): p_XX is its XX %% quantile (statsdur = %r)" % (statsdur,), {},
                           dict(gloc=float(gl), gscale=float(gs), p=dict(zip(map(pkey, qlist), exp))),
                           dict(gloc=float(s["gloc"]), gscale=float(s["gscale"]), p=dict(zip(map(pkey, qlist), pv)))))
         # the property's defining clauses on the reported numbers
@@ -305,6 +412,7 @@ def summary_clauses(inp, dist=None):
             w = Weibull(*wpar)
             q1 = float(w.invcdf(p=[1 - 1 / nn])[0])
             f1 = float(w.pdf(x=[float(s["gloc"])])[0])
+            f1 = f1 if f1 > 0 else 1e-300                # (gloc outside the support: density 0)
             if abs(q1 - s["gloc"]) > 1e-9 * (abs(q1) + wpar[1]) + wpar[1] * 1e-9 or not close(1 / (nn * f1), float(s["gscale"]), 1e-8):
                 fails.append(("reported gloc is the 1-1/n quantile of the reported Weibull and gscale == 1/(n * density there)", {},
                               [q1, 1 / (nn * f1)], [float(s["gloc"]), float(s["gscale"])]))
@@ -369,14 +477,16 @@ def summary_clauses(inp, dist=None):
                               {nm: float(d1[key].get(nm, np.nan)) for nm in badn}))
             fails += db_clauses(inp, t, x, kw, quant, qlist, dist)
             twin = kw.get("twin", (t[0], t[-1]))
-            g = calculate_stats({"s": ts}, twin, kw.get("filterargs"), minima=ismin)["s"]
-            ref = ts.stats(twin=twin, filterargs=kw.get("filterargs"), statsdur=10800., quantiles=(0.37, 0.57, 0.9), is_minima=ismin,
+            fargs = kw.get("filterargs")
+            g = calculate_stats({"s": ts}, twin, fargs, minima=ismin)["s"]
+            ref = ts.stats(twin=twin, filterargs=fargs, statsdur=10800., quantiles=(0.37, 0.57, 0.9), is_minima=ismin,
                            include_sample=True)
             names = ("mean", "wloc", "gloc", "gscale", "p_37.00", "p_57.00", "p_90.00")
             badn = [nm for nm in names if not close(float(g[nm]), float(ref[nm]), 1e-12)]
             if badn:
                 fails.append(("app.funcs.calculate_stats equals TimeSeries.stats with the GUI defaults", {},
                               {nm: float(ref[nm]) for nm in badn}, {nm: float(g[nm]) for nm in badn}))
+            fails += gui_clauses(ts, TimeSeries("s_neg", t, -x), twin, fargs, ismin, dist)
             # GUI defaults obey the chain as well
             if all(np.isfinite([float(g[nm]) for nm in names])) and np.size(g["sample"]) >= 2:
                 ng = round(10800. / (g["end"] - g["start"]) * np.size(g["sample"]))
@@ -420,31 +530,93 @@ def gen_summary(rng, fanout, seed):
         quant = sorted(quant, reverse=True)
     return dict(kind="summary", sig_seed=sig_seed, n=n, tmode=tmode, step=rng.choice([1. / 1024, 1. / 1024, 0.125, 0.5]),
                 level=rng.choice([0.0, -5.0, 3.0]),           # also signals at a negative level
-                kwargs=kw, statsdur=rng.choice([10800., 3600., 1000.]), quantiles=quant,
+                kwargs=kw, statsdur=rng.choice([10800., 3600., 1000.]), sdtype=rng.choice(SD_TYPES), quantiles=quant,
                 qtype=rng.choice(["tuple", "tuple", "list", "array"]), is_minima=rng.random() < 0.4,
                 a=rng.choice([0.5, 2.0, 4.0]), b=float(rng.randint(-8, 8)), prior=rng.random() < 0.4, fanout=fanout, verif_seed=seed)
 
 
 # ---- Weibull -> Gumbel formulas ------------------------------------------------------------------------------------------------------
+def chain_clauses(w, g, n, where=""):
+    """the property's defining clauses for the Gumbel parameters g derived from the Weibull object w (as it is now) and n"""
+    fails = []
+    scale = float(w.scale)
+    q = float(w.invcdf(p=[1 - 1 / n])[0])
+    if not abs(q - g[0]) <= 1e-9 * (abs(q) + scale) + scale * 1e-9:
+        fails.append(("gloc is the Weibull 1-1/n quantile" + where, q, float(g[0])))
+    f = float(w.pdf(x=[g[0]])[0])
+    e = 1 / (n * f) if f > 0 else float("inf")         # (gloc outside the support: density 0)
+    if not close(e, float(g[1]), 1e-8):
+        fails.append(("gscale == 1/(n * Weibull density at gloc)" + where, e, float(g[1])))
+    return fails
+
+
 def w2g_clauses(inp):
     from qats.stats.weibull import Weibull, weibull2gumbel
     from qats.stats.gumbel import Gumbel
     loc, scale, shape, n = inp["loc"], inp["scale"], inp["shape"], inp["n"]
+    nsp = spell(n, inp.get("ntype"))                    # n as float / int / numpy scalar
     fails = []
-    g1 = weibull2gumbel(loc, scale, shape, n)
-    g2 = Weibull(loc, scale, shape).gumbel_parameters(n=n)
-    g3o = Gumbel.fit_from_weibull_parameters(loc, scale, shape, n)
+    g1 = weibull2gumbel(loc, scale, shape, nsp)
+    w = Weibull(loc, scale, shape)
+    g2 = w.gumbel_parameters(n=nsp)
+    g3o = Gumbel.fit_from_weibull_parameters(loc, scale, shape, nsp)
     g3 = (g3o.loc, g3o.scale)
     if not all(close(float(a), float(b), 1e-12) for a, b in zip(g1 + g1, g2 + g3)):
         fails.append(("the three entry points give identical Gumbel parameters", fl(g1), fl(g2 + g3)))
-    w = Weibull(loc, scale, shape)
-    q = float(w.invcdf(p=[1 - 1 / n])[0])
-    if abs(q - g1[0]) > 1e-9 * (abs(q) + scale) + scale * 1e-9:
-        fails.append(("gloc is the Weibull 1-1/n quantile", q, float(g1[0])))
-    f = float(w.pdf(x=[g1[0]])[0])
-    if not close(1 / (n * f), float(g1[1]), 1e-8):
-        fails.append(("gscale == 1/(n * Weibull density at gloc)", 1 / (n * f), float(g1[1])))
+    fails += chain_clauses(w, g1, n)
+    # history on the SAME Weibull object: parameters re-assigned between calls of gumbel_parameters (same n or a new n, in any
+    # spelling); after every step the clauses hold for the distribution the object describes now
+    for k, st in enumerate(inp.get("history") or []):
+        for a_, v in st.get("set", {}).items():
+            setattr(w, a_, v)
+        cur, nk = fl(w.params), float(st.get("n", n))
+        where = " (history step %d on one object: %s re-assigned, n = %r, now loc, scale, shape = %r)" % (
+            k + 1, "+".join(sorted(st.get("set", {}))) or "nothing", nk, cur)
+        try:
+            nks = spell(nk, st.get("ntype"))
+            gk = w.gumbel_parameters(n=nks)
+            r1 = weibull2gumbel(*cur, nks)
+            r3o = Gumbel.fit_from_weibull_parameters(*cur, nks)
+            r3 = (r3o.loc, r3o.scale)
+        except Exception as e:
+            fails.append(("the three entry points give identical Gumbel parameters (must not raise)" + where, "parameters", repr(e)))
+            break
+        if not all(np.isfinite(fl(r1 + r3))):
+            break
+        if not (allclose(r1, gk, 1e-12) and allclose(r3, gk, 1e-12)):
+            fails.append(("the three entry points give identical Gumbel parameters" + where, fl(r1 + r3), fl(gk)))
+        fails += chain_clauses(w, gk, nk, where)
     return fails, g1, g3
+
+
+N_TYPES = ("float", "float", "int", "np.int64", "np.float64")
+SHAPES = (1.0, 2.0, 0.8, 1.3, 3.5)
+
+
+def gen_history(rng, loc, scale, shape, n):
+    """1-3 re-parameterisations of one Weibull object: positive affine map of the peaks (loc -> a*loc+b, scale -> a*scale), a new
+    shape, or nothing; mostly the SAME n asked again (possibly in another spelling), sometimes a new one"""
+    hist = []
+    for _ in range(rng.choice([1, 2, 2, 3])):
+        what = rng.choice(["affine", "affine", "scale", "loc", "shape", "all", "nothing"])
+        a, b = rng.choice([0.5, 2.0, 3.0]), float(rng.randint(-7, 7))
+        st = {}
+        if what in ("affine", "all"):
+            loc, scale = a * loc + b, a * scale
+            st.update(loc=loc, scale=scale)
+        if what == "scale":
+            scale = a * scale
+            st.update(scale=scale)
+        if what == "loc":
+            loc = loc + (b or 1.0)
+            st.update(loc=loc)
+        if what in ("shape", "all"):
+            shape = rng.choice([v for v in SHAPES if v != shape])
+            st.update(shape=shape)
+        if rng.random() < 0.2:
+            n = float(rng.choice([2, 17, 1000, 2437]))
+        hist.append(dict(set=st, n=n, ntype=rng.choice(N_TYPES)))
+    return hist
 
 
 def run(chk):
@@ -470,8 +642,11 @@ def run(chk):
     outs = drv.run(lines)
     for i, (loc, scale, shape, n) in enumerate(meta):
         m = [unfbits(o.split()[1]) for o in outs[4 * i:4 * i + 4]]
-        inp = dict(loc=loc, scale=scale, shape=shape, n=n)
+        inp = dict(kind="w2g", loc=loc, scale=scale, shape=shape, n=n, ntype=rng.choice(N_TYPES),
+                   history=gen_history(rng, loc, scale, shape, n))
+        inp0 = inp if i == 0 else inp0
         chk.count("w2g")
+        chk.dist("w2g:n-as-%s:history-%d" % (inp["ntype"] if n == round(n) else "float", len(inp["history"])))
         chk.nontriv(repr(inp))
         try:
             fails, g1, g3 = w2g_clauses(inp)
@@ -482,6 +657,17 @@ def run(chk):
             chk.disagree("w2g", inp, m, [float(v) for v in g1 + g3])
         for f in fails:
             chk.fail(f[0], inp, f[1], f[2])
+    # past failures: parameter / n histories on one Weibull object (clauses on the implementation)
+    for inp in [c for c in corpus if c.get("kind") == "w2g"]:
+        chk.count("w2g")
+        chk.nontriv(repr(inp))
+        chk.dist("w2g:corpus:history-%d" % len(inp.get("history") or []))
+        try:
+            fails = w2g_clauses(inp)[0]
+        except Exception as e:
+            fails = [("the three entry points give identical Gumbel parameters (must not raise)", "parameters", repr(e))]
+        for f in fails:
+            chk.fail(f[0], inp, f[1], f[2])
     # entry point on a fitted distribution (sample attached): an explicit n is honoured, the default is the sample size.
     # Samples: continuous, logged with one decimal, integer-valued (exact ties), given as ndarray or list, any order
     fits = [c for c in corpus if c.get("kind") == "fit"]
@@ -489,14 +675,17 @@ def run(chk):
         fits.append(dict(kind="fit", w0=[round(rng.uniform(0, 5), 2), round(rng.uniform(0.5, 4), 2), rng.choice([1.5, 2.0, 3.0])],
                          size=rng.choice([30, 80]), seed=rng.randint(0, 10 ** 6), decimals=rng.choice([None, None, 1, 0]),
                          order=rng.choice(["drawn", "ascending", "descending"]), aslist=rng.random() < 0.3,
-                         method=rng.choice(["pwm", "pwm", "msm"]), n=float(rng.choice([7, 1000, 12345]))))
+                         method=rng.choice(["pwm", "pwm", "msm"]), n=float(rng.choice([7, 1000, 12345])),
+                         history=[dict(a=rng.choice([0.5, 2.0, 3.0]), b=float(rng.randint(-7, 7)),
+                                       shape_factor=rng.choice([1.0, 1.0, 1.25]), ntype=rng.choice(N_TYPES))
+                                  for _ in range(rng.choice([0, 1, 2]))]))
     for inp in fits:
         chk.count("w2g-fitted")
         chk.nontriv(repr(inp))
         chk.dist("fit:%s:%s" % (inp["method"], {None: "continuous", 1: "one-decimal", 0: "integer"}[inp.get("decimals")]))
         for f in fit_clauses(inp):
             chk.fail(f[0], inp, f[1], f[2])
-    chk.sample(dict(loc=meta[0][0], scale=meta[0][1], shape=meta[0][2], n=meta[0][3]))
+    chk.sample(inp0)
     chk.sample(fits[-1])
     # ---- correspondence of the extreme-value chain of the summary with Qats.Stats.summary (Float) ---------------------------------
     sl, sm = [], []
@@ -509,10 +698,11 @@ def run(chk):
         qs = [0.37, 0.57, 0.9]
         rng.shuffle(qs)                                 # quantiles in any order: reply compared position by position
         ts = TimeSeries("s", t, x)
-        s_ = ts.stats(statsdur=sd, quantiles=tuple(qs), is_minima=ismin, include_sample=True)
+        sdt = rng.choice(SD_TYPES)
+        s_ = ts.stats(statsdur=spell(sd, sdt), quantiles=tuple(qs), is_minima=ismin, include_sample=True)
         dur = float(t[-1] - t[0])
         sl.append("st.summary %d %s %s %s %s" % (ismin, fbits(sd), fbits(dur), ",".join(fbits(q) for q in qs), " ".join(fbits(v) for v in x)))
-        sm.append((s_, dict(sig, statsdur=sd, is_minima=ismin, quantiles=list(qs)), list(qs)))
+        sm.append((s_, dict(sig, statsdur=sd, sdtype=sdt, is_minima=ismin, quantiles=list(qs)), list(qs)))
     for (s_, inp, qs), o in zip(sm, drv.run(sl)):
         chk.count("st.summary")
         if o.strip() == "ok none":
